@@ -5,7 +5,7 @@
 #include "specs.hpp"
 #include <sys/stat.h>
 
-static std::string g_prop, g_faildir; static double g_K = 32;
+static std::string g_prop, g_faildir; static double g_K = 64;
 static long g_shrink_budget = -1;   // -1: no failure seen yet in this sub-property; otherwise executions left for shrinking
 
 static void write_file(const std::string &path, const std::string &text) { std::ofstream f(path); f << text; }
@@ -48,7 +48,7 @@ static int replay(const std::string &file) {
 
 int main(int argc, char **argv) {
   if (!freopen("/dev/null", "w", stdout)) {}   // sod.cpp prints through printf
-  g_K = atof(arg_value(argc, argv, "--K", "32"));
+  g_K = atof(arg_value(argc, argv, "--K", "64"));
   if (const char *r = arg_value(argc, argv, "--replay")) return replay(r);
   g_prop = arg_value(argc, argv, "--prop", "C01"); uint64_t seed = strtoull(arg_value(argc, argv, "--seed", "1"), 0, 10); int cases = atoi(arg_value(argc, argv, "--cases", "100"));
   g_faildir = arg_value(argc, argv, "--faildir", "."); stats().path = arg_value(argc, argv, "--out", ""); std::string sols = arg_value(argc, argv, "--sols", "");
